@@ -107,4 +107,6 @@ def run_udp(binp, seed, rounds):
     if p.returncode != 0:
         raise vlib.ToolError("server udp driver failed: " + p.stdout[-500:])
     o = json.loads(p.stdout.strip().splitlines()[-1])
+    if o.get("tool_trouble"):
+        raise vlib.ToolError("loopback UDP driver: " + o["tool_trouble"])
     return {"bad": o.get("violations", []), "rounds_ok": o.get("rounds_ok", 0), "stats": o}
